@@ -215,7 +215,8 @@ def wf (c : Case) : Bool :=
   nodup c.body && c.body.all (fun n => !reserved.contains n) &&
   nodup c.baseDefines && c.baseDefines.all (fun n => !reserved.contains n) &&
   (c.baseDefines.isEmpty || c.plainMid) &&
-  (c.api == .attrS || c.fCmp == .unset)
+  (c.api == .attrS || c.fCmp == .unset) &&
+  c.history.all (fun b => nodup b && b.all (fun n => !reserved.contains n))
 
 /-- No listed deviation is left: K8 (own `__setattr__` replaced by `object.__setattr__` below an attrs-made
     `__setattr__` when auto-detection is off) is repaired — the reset never touches a `__setattr__` of the
